@@ -63,6 +63,7 @@ type Conn struct {
 	EndStamp            int64  // stamp at which the client started ending it
 	HalfClosed          int64  // stamp of the client's half-close (FIN sent, still reading); 0 = none
 	UnreadAtServerClose int    // bytes sent by the client that the broker had not read when Server.Close was called
+	LostAtReset         int    // bytes sent by the client that the broker had not read when the connection was reset (discarded)
 	EndVT               int64
 	OpenStamp           int64
 	OpenVT              int64
@@ -545,6 +546,7 @@ func (r *run) client(st *cstate) {
 				continue
 			}
 			r.endConn(c, "rst")
+			c.LostAtReset = c.nc.Unread()
 			c.nc.Reset()
 		case "raw":
 			if !alive {
@@ -567,6 +569,8 @@ func (r *run) client(st *cstate) {
 				if tc := r.cs[op.Target].conn; tc != nil && !tc.nc.Closed() {
 					if op.How == "rst" {
 						r.endConn(tc, "rst")
+						// a reset discards what the broker has not read yet
+						tc.LostAtReset = tc.nc.Unread()
 						tc.nc.Reset()
 					} else {
 						r.endConn(tc, "fin")
